@@ -233,20 +233,29 @@ def snapRel (s : St) (i : Nat) : St :=
   { s with cref := releaseAll s.cref (s.snap i).held
            snap := upd s.snap i { s.snap i with st := .closed, held := [] } }
 
-/-! ### job steps -/
+/-! ### job steps
+
+Every job step is a shared-state primitive composed with the update of the job's own record
+(`setJob`); the two touch different fields, so their order is immaterial. -/
 
 def setPc (s : St) (j : Nat) (pc : Pc) : St := s.setJob j { s.job j with pc := pc }
 
-/-- `family.newTableBuilder`: `store.nextFileNumber()` (under the version-set mutex) and
-`addPendingOutput` — the number is invisible to every other thread until it is marked, so the two
-are one step. The file's future content and key range are fixed here. -/
-def jAlloc (s : St) (j : Nat) (c : Content) (level : Nat) : St :=
-  let m : FileMeta := { no := s.nextFile, level := level, minKey := contentMin c, maxKey := contentMax c }
-  { s with nextFile := s.nextFile + 1, pending := s.nextFile :: s.pending
-           content := upd s.content s.nextFile c
-           job := upd s.job j { s.job j with out := some m, pc := .allocd } }
-
 def outNo (b : Job) : List Nat := match b.out with | some m => [m.no] | none => []
+
+/-- `store.nextFileNumber()` (under the version-set mutex) + `addPendingOutput`; the future
+content of the file is fixed here -/
+def allocFile (s : St) (c : Content) : St :=
+  { s with nextFile := s.nextFile + 1, pending := s.nextFile :: s.pending
+           content := upd s.content s.nextFile c }
+
+/-- `family.newTableBuilder`: the number is invisible to every other thread until it is marked
+pending, so allocation and marking are one step. -/
+def jAlloc (s : St) (j : Nat) (c : Content) (level : Nat) : St :=
+  (allocFile s c).setJob j
+    { s.job j with out := some { no := s.nextFile, level := level, minKey := contentMin c, maxKey := contentMax c }
+                   pc := .allocd }
+
+def createFiles (s : St) (fs : List Nat) : St := { s with disk := fs ++ s.disk }
 
 /-- `table.NewStoreBuilder`: the table file appears in the directory. For a compaction the edit
 log (`MarkInputDeletes` + `AddFile(level+1, output)`) is local data. -/
@@ -255,26 +264,31 @@ def jCreate (cfg : Cfg) (s : St) (j : Nat) : St :=
   let e : Edit := match b.kind with
     | .flush => { adds := b.out.toList, rollAdd := if cfg.rollupOn then outNo b else [] }
     | _ => { dels := b.inputs.map (fun m => (m.level, m.no)), adds := b.out.toList }
-  { s with disk := outNo b ++ s.disk, job := upd s.job j { b with edit := e, pc := .ready } }
+  (createFiles s (outNo b)).setJob j { b with edit := e, pc := .ready }
+
+def setLock (s : St) (l : Option Nat) : St := { s with lock := l }
 
 /-- `CommitFamilyEditLog`: `vs.mutex.Lock()` (+ persist to the manifest: C01's model) -/
-def jLock (s : St) (j : Nat) : St := { setPc s j .cLocked with lock := some j }
+def jLock (s : St) (j : Nat) : St := setLock (setPc s j .cLocked) (some j)
 
-/-- `familyVersion.GetSnapshot()` (retain current), `Clone()` (`newVersionID`), `editLog.apply`
-(its `NextFileNumber` record bumps `nextFileNumber`). Clone/apply touch thread-local data and two
-counters only. -/
+/-- `Clone()` (`newVersionID`) + `editLog.apply` (its `NextFileNumber` record bumps
+`nextFileNumber`): thread-local data and two counters -/
+def buildVersion (s : St) (e : Edit) : St :=
+  { s with ver := upd s.ver s.nextVer (applyEdit (s.ver s.cur) e)
+           nextVer := s.nextVer + 1
+           nextFile := s.nextFile + 1 }
+
+/-- `familyVersion.GetSnapshot()` (retain current), then clone + apply. -/
 def jSnap (s : St) (j : Nat) : St :=
-  let s1 := snapAcquire s (some j)
-  { s1 with ver := upd s1.ver s.nextVer (applyEdit (s.ver s.cur) (s.job j).edit)
-            nextVer := s.nextVer + 1
-            nextFile := s.nextFile + 1
-            job := upd s.job j { s.job j with csnap := s.nSnap, newVer := s.nextVer, prev := s.cur, pc := .cSnapped } }
+  (buildVersion (snapAcquire s (some j)) (s.job j).edit).setJob j
+    { s.job j with csnap := s.nSnap, newVer := s.nextVer, prev := s.cur, pc := .cSnapped }
+
+def swapVersion (s : St) (v : Nat) (e : Edit) : St :=
+  { s with active := v :: s.active, cur := v, hist := e :: s.hist }
 
 /-- `appendVersion`: `Lock; activeVersions[v.ID()] = v; current = v; Unlock` -/
 def jSwap (s : St) (j : Nat) : St :=
-  let b := s.job j
-  { s with active := b.newVer :: s.active, cur := b.newVer, hist := b.edit :: s.hist
-           job := upd s.job j { b with pc := .cSwapped } }
+  swapVersion (setPc s j .cSwapped) (s.job j).newVer (s.job j).edit
 
 /-- `appendVersion`: `previous.NumOfRef() == 0` (atomic load) -/
 def jCheck (s : St) (j : Nat) : St :=
@@ -282,26 +296,28 @@ def jCheck (s : St) (j : Nat) : St :=
 
 /-- `appendVersion`: `removeVersion(previous)` if the load saw 0 -/
 def jPrevRm (cfg : Cfg) (s : St) (j : Nat) : St :=
-  let s1 := if (s.job j).prevZero then removeVersion cfg s (s.job j).prev else s
-  setPc s1 j .cPrevDone
+  let s1 := setPc s j .cPrevDone
+  if (s.job j).prevZero then removeVersion cfg s1 (s.job j).prev else s1
 
 /-- `vs.mutex.Unlock()` -/
-def jUnlock (s : St) (j : Nat) : St := { setPc s j .cUnlocked with lock := none }
+def jUnlock (s : St) (j : Nat) : St := setLock (setPc s j .cUnlocked) none
+
+def unpend (s : St) (fs : List Nat) : St := { s with pending := s.pending.filter (fun f => !(fs.contains f)) }
 
 /-- `removePendingOutput` (flush: Commit's defer; compaction: cleanupCompaction) -/
-def jUnpend (s : St) (j : Nat) (pc : Pc) : St :=
-  { setPc s j pc with pending := s.pending.filter (fun f => !((outNo (s.job j)).contains f)) }
+def jUnpend (s : St) (j : Nat) (pc : Pc) : St := unpend (setPc s j pc) (outNo (s.job j))
+
+def setCompacting (s : St) (c : Bool) : St := { s with compacting := c }
 
 /-- compaction: `compacting.CAS(false,true)`, `GetSnapshot()`, `PickL0Compaction` (reads the
 immutable version only) -/
 def jStartCompact (cfg : Cfg) (s : St) (j : Nat) : St :=
-  let s1 := snapAcquire s (some j)
   let b := s.job j
   let b' : Job := match pickL0 (s.ver s.cur) cfg.threshold with
     | none => { b with snap := s.nSnap, pc := .closeOwn }
     | some (l0, l1) =>
       { b with snap := s.nSnap, inputs := l0 ++ l1, trivial := (l0.length == 1 && l1.isEmpty), pc := .picked }
-  { s1 with compacting := true, job := upd s.job j b' }
+  (setCompacting (snapAcquire s (some j)) true).setJob j b'
 
 /-- `compactJob.Run`: trivial move builds its edit log, a merge starts opening its inputs (local) -/
 def jPicked (s : St) (j : Nat) : St :=
@@ -318,7 +334,7 @@ def jRead (s : St) (j : Nat) : St :=
   match b.todoIn with
   | [] => setPc s j .merging
   | f :: rest =>
-    if getReaderOk s f then (snapGetReader s b.snap f true).setJob j { b with todoIn := rest }
+    if getReaderOk s f then snapGetReader (s.setJob j { b with todoIn := rest }) b.snap f true
     else setPc s j .closeOwn
 
 /-- `listDirFunc(familyPath)` -/
@@ -333,14 +349,18 @@ def doRollup (s : St) (j : Nat) : St :=
   let b := s.job j
   let live := b.live ++ (s.ver s.cur).rollup
   s.setJob j { b with live := live, todoDel := b.dlist.filter (fun f => !(live.contains f)), pc := .doRolled }
+
+def evictFile (s : St) (f : Nat) : St := { s with cref := evict s.cref f }
 /-- `store.evictFamilyFile(n)` = `cache.Evict` -/
-def doEvict (s : St) (j : Nat) (f : Nat) : St := { setPc s j .doEvicted with cref := evict s.cref f }
+def doEvict (s : St) (j : Nat) (f : Nat) : St := evictFile (setPc s j .doEvicted) f
+
+def removeFile (s : St) (f : Nat) : St := { s with disk := s.disk.filter (· ≠ f) }
 /-- `deleteSST(n)` = `removeDirFunc(path)` -/
 def doRemove (s : St) (j : Nat) (f : Nat) (rest : List Nat) : St :=
-  { s with disk := s.disk.filter (· ≠ f), job := upd s.job j { s.job j with todoDel := rest, pc := .doRemoved } }
+  removeFile (s.setJob j { s.job j with todoDel := rest, pc := .doRemoved }) f
 /-- end of the job; a compaction clears `family.compacting` -/
 def jFinish (s : St) (j : Nat) : St :=
-  { setPc s j .done with compacting := if (s.job j).kind = .compact then false else s.compacting }
+  setCompacting (setPc s j .done) (if (s.job j).kind = .compact then false else s.compacting)
 
 /-- one atomic step of job `j` -/
 def jstep (cfg : Cfg) (s : St) (j : Nat) : Option St :=
@@ -365,23 +385,23 @@ def jstep (cfg : Cfg) (s : St) (j : Nat) : Option St :=
     | .cSnapped => some (jSwap s j)
     | .cSwapped => some (jCheck s j)
     | .cChecked => some (jPrevRm cfg s j)
-    | .cPrevDone => if (s.snap b.csnap).st = .opened then some (setPc (snapDec s b.csnap) j .cDecd) else none
+    | .cPrevDone => if (s.snap b.csnap).st = .opened then some (snapDec (setPc s j .cDecd) b.csnap) else none
     | .cDecd =>
       match (s.snap b.csnap).st with
-      | .decd z => some (setPc (snapRemove cfg s b.csnap z) j .cRemoved)
+      | .decd z => some (snapRemove cfg (setPc s j .cRemoved) b.csnap z)
       | _ => none
-    | .cRemoved => if (s.snap b.csnap).st = .removed then some (setPc (snapRel s b.csnap) j .cReleased) else none
+    | .cRemoved => if (s.snap b.csnap).st = .removed then some (snapRel (setPc s j .cReleased) b.csnap) else none
     | .cReleased => some (jUnlock s j)
     | .cUnlocked =>
       match b.kind with
       | .compact => some (jUnpend s j .closeOwn)
       | _ => some (jUnpend s j .done)
-    | .closeOwn => if (s.snap b.snap).st = .opened then some (setPc (snapDec s b.snap) j .oDecd) else none
+    | .closeOwn => if (s.snap b.snap).st = .opened then some (snapDec (setPc s j .oDecd) b.snap) else none
     | .oDecd =>
       match (s.snap b.snap).st with
-      | .decd z => some (setPc (snapRemove cfg s b.snap z) j .oRemoved)
+      | .decd z => some (snapRemove cfg (setPc s j .oRemoved) b.snap z)
       | _ => none
-    | .oRemoved => if (s.snap b.snap).st = .removed then some (setPc (snapRel s b.snap) j .doStart) else none
+    | .oRemoved => if (s.snap b.snap).st = .removed then some (snapRel (setPc s j .doStart) b.snap) else none
     | .doStart => some (doList s j)
     | .doListed => some (doPend s j)
     | .doPended => some (doActive s j)
@@ -411,6 +431,11 @@ inductive Act
   | cleanup (fs : List Nat)      -- storeCache.Cleanup closing the entries fs
 deriving Repr
 
+def cleanFiles (s : St) (fs : List Nat) : St := { s with cref := cleanup s.cref fs }
+
+def spawnJob (s : St) (k : JKind) (p : Content) : St :=
+  { s with job := upd s.job s.nJob { kind := k, pc := .start, payload := p }, nJob := s.nJob + 1 }
+
 /-- a reader may touch snapshot `i` (it is its own and in the right state) -/
 def readerSnap (s : St) (i : Nat) : Bool := i < s.nSnap && (s.snap i).owner.isNone
 
@@ -430,9 +455,9 @@ def step (cfg : Cfg) (s : St) : Act → Option St
       | _ => none
     else none
   | .sRel i => if readerSnap s i && (s.snap i).st = .removed then some (snapRel s i) else none
-  | .spawn k p => some { s with job := upd s.job s.nJob { kind := k, pc := .start, payload := p }, nJob := s.nJob + 1 }
+  | .spawn k p => some (spawnJob s k p)
   | .jstep j => jstep cfg s j
-  | .cleanup fs => if fs.all (canClean s.cref) then some { s with cref := cleanup s.cref fs } else none
+  | .cleanup fs => if fs.all (canClean s.cref) then some (cleanFiles s fs) else none
 
 def run (cfg : Cfg) (s : St) : List Act → Option St
   | [] => some s
